@@ -14,31 +14,6 @@ from ofgen import rint, rbytes, rmac, rname, U8, U16, U32, U64
 sys.path.insert(0, os.path.join(os.path.dirname(os.path.abspath(__file__)), "translate"))
 import codec_layouts, spec_parser
 
-def _install_resolve_cache():
-    """common.resolve_qualname parses the whole source file once per anchor (47 ms x ~400 anchors); give it a per-path
-    parse cache.  Same result, same signature; nothing else of common is touched."""
-    import ast
-    if getattr(common.resolve_qualname, "_cached", False): return
-    trees = {}
-    def resolve_qualname(path, qual):
-        if path not in trees:
-            try: trees[path] = ast.parse(open(path).read())
-            except Exception: trees[path] = None
-        node = trees[path]
-        if node is None: return None
-        for part in qual.split("."):
-            nxt = None
-            for ch in getattr(node, "body", []):
-                if isinstance(ch, (ast.FunctionDef, ast.AsyncFunctionDef, ast.ClassDef)) and ch.name == part:
-                    nxt = ch; break
-            if nxt is None: return None
-            node = nxt
-        first = min([node.lineno] + [d.lineno for d in getattr(node, "decorator_list", [])])
-        return (first, node.end_lineno)
-    resolve_qualname._cached = True
-    common.resolve_qualname = resolve_qualname
-
-
 TRAILER = b"\xa5\x5a\xa5"
 MAXLEN = 65535
 
@@ -73,6 +48,7 @@ class Builder:
     def __init__(self, of, nx, addresses):
         self.of, self.nx = of, nx
         self.EthAddr, self.IPAddr, self.IPAddr6 = addresses.EthAddr, addresses.IPAddr, addresses.IPAddr6
+        self.refs = {}
 
     def cls(self, name):
         c = getattr(self.of, name, None)
@@ -91,6 +67,7 @@ class Builder:
     def build(self, s):
         if isinstance(s, list): return [self.build(x) for x in s]
         if not isinstance(s, dict): return s
+        if "ref" in s: return self.refs[s["ref"]]            # a shared component object (kind "reuse")
         if "nxmcls" in s: return getattr(self.nx, s["nxmcls"])
         if "nxm" in s:
             c = getattr(self.nx, s["nxm"])
@@ -277,6 +254,95 @@ def g_fm_data(rng, variant=None):
     return {"kind": "fm_data", "spec": fm, "data": {"cls": "ofp_packet_in", "kw": kw}}
 
 
+def reuse_match_ops(m_ref, rng, order=None, hash_at=0):
+    """messages that carry the same match object, in the given order, with hash() (which locks the match) at `hash_at`"""
+    fs = lambda: {"cls": "ofp_flow_stats", "kw": dict(table_id=1, match=m_ref, priority=7, cookie=9, actions=[])}
+    msgs = {
+        "flow_mod": {"cls": "ofp_flow_mod", "kw": dict(xid=34, match=m_ref, cookie=1, command=0, priority=32768, buffer_id=None, out_port=65535, flags=0,
+                                                      actions=[{"cls": "ofp_action_output", "kw": dict(port=1)}])},
+        "flow_req": {"cls": "ofp_stats_request", "kw": dict(xid=35, flags=0, body={"cls": "ofp_flow_stats_request", "kw": dict(match=m_ref, table_id=255, out_port=65535)})},
+        "aggr_req": {"cls": "ofp_stats_request", "kw": dict(xid=36, flags=0, body={"cls": "ofp_aggregate_stats_request", "kw": dict(match=m_ref, table_id=255, out_port=65535)})},
+        "flow_rep": {"cls": "ofp_stats_reply", "kw": dict(xid=37, type=1, flags=0, body=[fs()])},
+        "removed": {"cls": "ofp_flow_removed", "kw": dict(xid=38, match=m_ref, cookie=1, priority=5, reason=0, duration_sec=1, duration_nsec=2, idle_timeout=3, packet_count=4, byte_count=5)},
+    }
+    order = order or rng.sample(sorted(msgs), rng.randint(2, 5))
+    ops = [{"op": "pack", "spec": msgs[k]} for k in order]
+    extra = [{"op": "hash", "ref": "c"}]
+    if rng is not None:
+        extra += rng.sample([{"op": "show", "ref": "c"}, {"op": "eq", "ref": "c"}, {"op": "cpack", "ref": "c", "kw": {"flow_mod": True}},
+                             {"op": "cpack", "ref": "c", "kw": {"flow_mod": False}}, {"op": "len", "ref": "c"}], rng.randint(0, 3))
+    for i, e in enumerate(extra):
+        pos = hash_at if i == 0 else rng.randint(0, len(ops))
+        ops.insert(min(pos, len(ops)), e)
+    return ops
+
+
+def g_reuse(rng, scenario=None):
+    """the same component object placed in several messages / packed several times, after hash / == / show — every pack
+    must give what a fresh equal object gives (pack is a function of the object's value, not of its history)"""
+    sc = scenario or rng.choice(["match", "match", "match", "action", "port", "queue", "entry"])
+    ref = {"ref": "c"}
+    if sc == "match":
+        comp = rng.choice([ofgen.match, ofgen.match, abnormal_match])(rng)
+        ops = reuse_match_ops(ref, rng, hash_at=rng.randint(0, 3))
+    elif sc == "action":
+        comp = g_any_action(rng) if rng.random() < 0.7 else {"cls": "ofp_action_output", "kw": dict(port=rng.choice([1, 0xfffd]), max_len=rint(rng, U16))}
+        msgs = [{"cls": "ofp_flow_mod", "kw": dict(xid=1, match=ofgen.match(rng), actions=[ref, ref])},
+                {"cls": "ofp_packet_out", "kw": dict(xid=2, buffer_id=None, in_port=1, actions=[ref], data="00")},
+                {"cls": "ofp_flow_stats", "kw": dict(table_id=0, match=ofgen.match(rng), actions=[ref])}]
+        rng.shuffle(msgs)
+        ops = [{"op": "pack", "spec": m} for m in msgs]
+        for e in rng.sample([{"op": "hash", "ref": "c"}, {"op": "show", "ref": "c"}, {"op": "eq", "ref": "c"}, {"op": "cpack", "ref": "c", "kw": {}}], 2):
+            ops.insert(rng.randint(0, len(ops)), e)
+    elif sc == "port":
+        comp = ofgen.phy_port(rng)
+        msgs = [{"cls": "ofp_features_reply", "kw": dict(xid=1, datapath_id=1, ports=[ref, ref])}, {"cls": "ofp_port_status", "kw": dict(xid=2, reason=1, desc=ref)},
+                {"cls": "ofp_features_reply", "kw": dict(xid=3, datapath_id=2, ports=[ref])}]
+        rng.shuffle(msgs)
+        ops = [{"op": "pack", "spec": m} for m in msgs]
+        for e in rng.sample([{"op": "hash", "ref": "c"}, {"op": "show", "ref": "c"}, {"op": "eq", "ref": "c"}, {"op": "cpack", "ref": "c", "kw": {}}], 2):
+            ops.insert(rng.randint(0, len(ops)), e)
+    elif sc == "queue":
+        comp = g_queue(rng)
+        ops = [{"op": "pack", "spec": {"cls": "ofp_queue_get_config_reply", "kw": dict(xid=1, port=1, queues=[ref])}}, {"op": "show", "ref": "c"},
+               {"op": "pack", "spec": {"cls": "ofp_queue_get_config_reply", "kw": dict(xid=2, port=2, queues=[ref, ref])}}, {"op": "cpack", "ref": "c", "kw": {}}]
+    else:
+        t, g = rng.choice([(1, ofgen.flow_stats), (3, ofgen.table_stats), (4, ofgen.port_stats), (5, ofgen.queue_stats)])
+        comp = g(rng)
+        ops = [{"op": "pack", "spec": {"cls": "ofp_stats_reply", "kw": dict(xid=1, type=t, flags=1, body=[ref])}}, {"op": "eq", "ref": "c"}, {"op": "show", "ref": "c"},
+               {"op": "pack", "spec": {"cls": "ofp_stats_reply", "kw": dict(xid=2, type=t, flags=0, body=[ref, ref])}}, {"op": "cpack", "ref": "c", "kw": {}}]
+    return {"kind": "reuse", "components": {"c": comp}, "ops": ops}
+
+
+NXM_SIZES = None
+
+
+def nx_match_of_length(rng, total):
+    """an nx_match spec whose packed length is exactly `total` bytes (distinct entry types; None if not reachable)"""
+    global NXM_SIZES
+    if NXM_SIZES is None:
+        NXM_SIZES = {}
+        for name in NXM_ALL:
+            ln, maskable = NXM_LEN[name]
+            NXM_SIZES.setdefault(4 + ln, []).append((name, False))
+            if maskable: NXM_SIZES.setdefault(4 + 2 * ln, []).append((name, True))
+    sizes = sorted(NXM_SIZES)
+    def search(rem, start, used):
+        if rem == 0: return []
+        for i in range(start, len(sizes)):
+            sz = sizes[i]
+            if sz > rem: break
+            for name, masked in NXM_SIZES[sz]:
+                if name in used: continue
+                r = search(rem - sz, i, used | {name})
+                if r is not None: return [(name, masked)] + r
+                break
+        return None
+    pick = search(total, 0, frozenset())
+    if pick is None: return None
+    return {"nx_match": [g_nxm(rng, n, masked=m, canonical=True) for n, m in pick]}
+
+
 def abnormal_match(rng):
     """a match that sets fields whose protocol prerequisites are absent (the library warns and normalises)"""
     kw = {"dl_type": rng.choice([0x88cc, 0x806, 0x800, None])}
@@ -357,8 +423,8 @@ class C01(Check):
             NXM_LEN[name] = (c._nxm_length, bool(c().allow_mask))
         self._load_layouts()
         self.spec = spec_parser.load(os.path.join(common.LEAN, "PoxModel", "Spec", "OF10Layouts.lean"))
+        self.nxspec = spec_parser.load(os.path.join(common.LEAN, "PoxModel", "Spec", "NXLayouts.lean"), base=self.spec)
         self._rec_cache = {}
-        _install_resolve_cache()
         self.anchors = self.compute_anchors()
 
     CODEC_METHODS = {"pack", "unpack", "_pack_body", "_unpack_body", "__len__", "_body_length", "unpack_new", "_unpack_header",
@@ -493,6 +559,7 @@ class C01(Check):
         if kind == "nxm": return self.impl_nxm(case)
         if kind == "stale": return self.impl_stale(case)
         if kind == "fm_data": return self.impl_fm_data(case)
+        if kind == "reuse": return self.impl_reuse(case)
         obj = self.B.build(case["spec"])
         out = {"cls": type(obj).__name__}
         try:
@@ -732,6 +799,49 @@ class C01(Check):
                 return "packet-out does not re-inject the packet-in (data / in_port / no buffer / output:TABLE)"
         return None
 
+    def impl_reuse(self, case):
+        """shared component objects through a history of hash / == / show / pack-in-different-messages; next to every pack
+        the same message is built from fresh equal components and packed: `steps` = [op, bytes with history, bytes fresh]"""
+        B = self.B
+        def fresh(): return {k: Builder.build(B, v) for k, v in case["components"].items()}
+        def packed(f):
+            try: return f().hex()
+            except Exception as e: return "raise:%s" % type(e).__name__
+        try:
+            B.refs = {}
+            shared = fresh()
+            steps = []
+            for op in case["ops"]:
+                k = op["op"]
+                if k == "pack":
+                    B.refs = shared; a = packed(lambda: B.build(op["spec"]).pack())
+                    B.refs = fresh(); b = packed(lambda: B.build(op["spec"]).pack())
+                    steps.append(["pack " + op["spec"]["cls"], a, b])
+                elif k == "cpack":
+                    kw = op.get("kw", {})
+                    if kw and not hasattr(shared[op["ref"]], "_wire_wildcards"): kw = {}
+                    a = packed(lambda: shared[op["ref"]].pack(**kw)); b = packed(lambda: fresh()[op["ref"]].pack(**kw))
+                    steps.append(["cpack %s" % sorted(kw.items()), a, b])
+                elif k == "hash":
+                    try: hash(shared[op["ref"]])
+                    except TypeError: pass
+                elif k == "show":
+                    try: shared[op["ref"]].show(); str(shared[op["ref"]])
+                    except Exception: pass
+                elif k == "eq":
+                    shared[op["ref"]] == fresh()[op["ref"]]
+                elif k == "len":
+                    len(shared[op["ref"]])
+        finally:
+            B.refs = {}
+        return {"cls": type(shared["c"]).__name__ if "c" in shared else "?", "steps": steps, "pack": "".join(x[1] for x in steps if not x[1].startswith("raise"))}
+
+    def oracle_reuse(self, case, obs):
+        for i, (what, a, b) in enumerate(obs["steps"]):
+            if a != b:
+                return "pack depends on the object's history: step %d (%s) gives %s… with the re-used component, %s… with a fresh equal one" % (i, what, a[:24], b[:24])
+        return None
+
     def impl_stale(self, case):
         """ofp_stats_request packed, its body replaced, packed again: the second pack must carry the new body"""
         o = self.B.build(case["spec"])
@@ -835,6 +945,7 @@ class C01(Check):
     def oracle(self, case, obs):
         kind = case.get("kind", "obj")
         if kind == "fm_data": return self.oracle_fm_data(case, obs)
+        if kind == "reuse": return self.oracle_reuse(case, obs)
         if kind == "stale":
             if obs.get("pack") is None: return "pack raises %s" % obs.get("outcome")
             if obs["body_on_wire"] != obs["body_set"]: return "stale body: pack() after assigning a new body still sends the old one"
@@ -894,7 +1005,8 @@ class C01(Check):
             return "object does not have the fields of the standard's structure: %s" % sp[1:80]
         if sp != obs["pack"]:
             i = next((k for k in range(0, min(len(sp), len(obs["pack"])), 2) if sp[k:k + 2] != obs["pack"][k:k + 2]), min(len(sp), len(obs["pack"])))
-            return "bytes differ from the OpenFlow 1.0 layout of this structure at offset %d" % (i // 2)
+            which = "Nicira extension" if cls in self.nxspec["layouts"] else "OpenFlow 1.0"
+            return "bytes differ from the %s layout of this structure at offset %d" % (which, i // 2)
         return None
 
     def spec_bytes(self, obj):
@@ -903,6 +1015,7 @@ class C01(Check):
         Nested variable-size parts (rest / element lists) are taken as the elements' own pack() bytes: each element class
         is compared with its own structure as a case of its own."""
         cname = type(obj).__name__
+        if cname in self.nxspec["layouts"]: return self.nx_spec_bytes(obj)
         L = self.spec["table"].get(cname)
         if L is None or cname == "ofp_match": return None          # ofp_match computes its values: hand model
         fixed, tail = L
@@ -926,13 +1039,34 @@ class C01(Check):
         except Exception as e:
             return "!%s: %s" % (type(e).__name__, e)
 
+    def nx_spec_bytes(self, obj):
+        """nx_flow_mod / nxt_packet_in as nicira-ext.h lays them out (Spec/NXLayouts.lean, parsed as text): fixed part with
+        `match_len`, then the nx_match, then zero bytes up to the next multiple of 8 — none when the match length already is
+        one — then the actions resp. two pad bytes and the packet.  The pad is computed here, not by the library."""
+        cname = type(obj).__name__
+        L = self.nxspec["layouts"][cname]
+        try:
+            mb = obj.match.pack()
+            pad = bytes((-len(mb)) % 8)
+            vals = {}
+            for f in L[0]:
+                if f[0] != "uint": continue
+                if f[1] == "match_len": vals[f[1]] = len(mb)
+                elif f[1] == "command": vals[f[1]] = obj.command | (obj.table_id << 8)     # "OFPFC_* + possibly a table ID"
+                else: vals[f[1]] = self.val_num(self.attr(obj, f[1]))
+            if cname == "nx_flow_mod": tb = mb + pad + b"".join(a.pack() for a in obj.actions)
+            else: tb = mb + pad + bytes(2) + obj.packed_data
+            return spec_parser.encode(L, vals, tb).hex()
+        except Exception as e:
+            return "!%s: %s" % (type(e).__name__, e)
+
     def finding_key(self, case, obs, failure):
         cls = (obs.get("cls") if isinstance(obs, dict) else None) or case.get("spec", {}).get("cls", "?")
         f = failure
         for pat in ("pack raises", "unpack raises", "len(obj) raises", "== raises", "re-pack raises"):
             if f.startswith(pat):
                 return "%s:%s:%s" % (cls, pat.split()[0].replace("len(obj)", "len"), f[len(pat):].strip())
-        if f.startswith("bytes differ from the OpenFlow"): return "%s:pack:layout-differs-from-spec" % cls
+        if f.startswith("bytes differ from the "): return "%s:pack:layout-differs-from-spec" % cls
         if "the standard says" in f: return "%s:registry:type-code" % cls
         if f.startswith("object does not have the fields"): return "%s:pack:fields-differ-from-spec" % cls
         if f.startswith("len(obj) ="): return "%s:len:mismatch" % cls
@@ -940,6 +1074,7 @@ class C01(Check):
         if f.startswith("unpack consumed"): return "%s:unpack:consumed" % cls
         if "re-pack" in f: return "%s:repack:differs" % cls
         if "stale" in f: return "%s:pack:stale-body" % cls
+        if f.startswith("pack depends on the object's history"): return "%s:pack:depends-on-history" % cls
         if "!=" in f: return "%s:roundtrip:not-equal" % cls
         return "%s:%s" % (cls, f[:40])
 
@@ -947,6 +1082,10 @@ class C01(Check):
         return isinstance(obs, dict) and obs.get("pack") is not None and len(obs["pack"]) > 16
 
     def shrink_candidates(self, case):
+        if case.get("kind") == "reuse":
+            for i in range(len(case["ops"])):
+                c = copy.deepcopy(case); del c["ops"][i]; yield c
+            return
         if case.get("kind", "obj") != "obj": return
         spec = case["spec"]
         kw = spec.get("kw", {})
@@ -1082,6 +1221,33 @@ class C01(Check):
         # ofp_flow_mod carrying a packet-in as `data`
         for v in ("buffered", "unbuffered", "incomplete"):
             for _ in range(8): cases.append(g_fm_data(rng, v))
+        # object re-use: one match object (hashed at every position) through every order of three kinds of message
+        import itertools
+        for mk in ({"dl_type": 0x806, "nw_proto": 2}, {"dl_type": 0x800, "nw_proto": 47, "nw_src": ["0a000001", 32]}, {"in_port": 3},
+                   {"dl_type": 0x800, "nw_proto": 6, "tp_dst": 80}):
+            for order in itertools.permutations(["flow_mod", "flow_req", "removed"]):
+                for h in range(0, 3):
+                    cases.append({"kind": "reuse", "components": {"c": {"cls": "ofp_match", "kw": mk}},
+                                  "ops": reuse_match_ops({"ref": "c"}, random.Random(h), order=list(order) + ["aggr_req", "flow_rep"][:h], hash_at=h)})
+        for sc in ("match", "action", "port", "queue", "entry"):
+            for _ in range(12): cases.append(g_reuse(rng, sc))
+        # nx_flow_mod / nxt_packet_in with nx_match lengths 0, 5 … 40 (every residue mod 8, incl. non-zero multiples of 8)
+        for total in range(0, 41):
+            m = nx_match_of_length(rng, total)
+            if m is None: continue
+            for k in ("nx_flow_mod", "nxt_packet_in"):
+                sp = g_nx_message(rng, k)
+                if k == "nx_flow_mod": sp["kw"]["match"] = m
+                else: sp["set"]["match"] = m
+                cases.append(self.obj(sp))
+        # Nicira actions nested in the action lists of OpenFlow and Nicira messages
+        for k in ("resubmit_table", "dec_ttl", "set_tunnel64", "controller", "reg_move", "fin_timeout"):
+            nxa = g_nx_action(rng, k)
+            out = {"cls": "ofp_action_output", "kw": dict(port=1)}
+            s1 = ofgen.message(rng, "flow_mod"); s1["kw"]["actions"] = [copy.deepcopy(nxa), out]; cases.append(self.obj(s1))
+            s2 = {"cls": "ofp_packet_out", "kw": dict(xid=5, buffer_id=None, in_port=1, actions=[out, copy.deepcopy(nxa)], data="0102")}; cases.append(self.obj(s2))
+            s3 = ofgen.flow_stats(rng); s3["kw"]["actions"] = [copy.deepcopy(nxa)]; cases.append(self.obj(s3))
+            s4 = g_nx_message(rng, "nx_flow_mod"); s4["kw"]["actions"] = [copy.deepcopy(nxa), out, copy.deepcopy(nxa)]; cases.append(self.obj(s4))
         # a request object re-used with a new body
         cases.append({"kind": "stale", "spec": {"cls": "ofp_stats_request", "kw": dict(xid=1, body={"cls": "ofp_port_stats_request", "kw": dict(port_no=1)})},
                       "body2": {"cls": "ofp_port_stats_request", "kw": dict(port_no=2)}})
@@ -1098,6 +1264,7 @@ class C01(Check):
             elif r < 0.78: yield self.obj(g_nx_action(rng))
             elif r < 0.83: yield self.obj(g_nx_message(rng))
             elif r < 0.85: yield g_fm_data(rng)
+            elif r < 0.87: yield g_reuse(rng)
             elif r < 0.93:
                 sp = ofgen.match(rng) if rng.random() < 0.6 else abnormal_match(rng)
                 yield {"kind": "match", "spec": sp, "flow_mod": rng.random() < 0.5}
